@@ -257,8 +257,9 @@ Proof. pose proof (Nat.div_mod n 256 ltac:(lia)). pose proof (Nat.mod_upper_boun
 
 (* the recovery path up to the second decoding = making room in the flat view *)
 Lemma recv_recover_spec v F q1 st1 : qinv q1 -> cinv v F st1 (contents q1) ->
-  recv_recover v (mkdq q1 st1) (qlen q1) = Ok (RErr MissingBuffer, mkdq q1 st1) \/
+  (qmax q1 <= qlen q1 /\ recv_recover v (mkdq q1 st1) (qlen q1) = Ok (RErr MissingBuffer, mkdq q1 st1)) \/
   exists q3 pre gap, qinv q3 /\ contents q3 = buf_rebuf st1 (contents q1) pre gap /\
+    length gap = dcurr st1 - (dpos st1 + dlen st1) + (qmax q1 - qlen q1) /\
     recv_recover v (mkdq q1 st1) (qlen q1) =
       (do '(r2, d2) <- decode_ring v (mkdq q3 (st_rebuf st1 (length pre) (length gap)));
        match r2 with
@@ -270,7 +271,7 @@ Proof.
   intros Hq Hc. pose proof Hc as (G1 & G2 & _). rewrite contents_length in G2 by assumption.
   pose proof Hq as (Hb & Hlm & Ho).
   unfold recv_recover. cbn [dq_q dq_st].
-  destruct (Nat.leb_spec (qmax q1) (qlen q1)); [left; reflexivity|].
+  destruct (Nat.leb_spec (qmax q1) (qlen q1)); [left; split; [assumption|reflexivity]|].
   set (n := qmax q1 - qlen q1).
   pose proof (qpre_spec q1 n Hq) as Hp.
   destruct (Nat.leb_spec n (qmax q1 - qlen q1)); [|unfold n in *; lia].
@@ -294,7 +295,7 @@ Proof.
   set (gap := slice (dpos st1 + dlen st1) (dcurr st1 + n - (dpos st1 + dlen st1)) c2).
   assert (Hpl : length pre = dpos st1) by (unfold pre; rewrite firstn_length; lia).
   assert (Hgl : length gap = dcurr st1 + n - (dpos st1 + dlen st1)) by (unfold gap; apply length_slice; lia).
-  exists q3, pre, gap. split; [assumption|]. split.
+  exists q3, pre, gap. split; [assumption|]. split; [|split; [rewrite Hgl; unfold n; lia|]].
   - rewrite Hc3. unfold buf_rebuf. f_equal. f_equal.
     + (* the moved bytes are the decoded bytes *)
       unfold decoded, slice. rewrite <- Hc2. rewrite skipn_skipn'. f_equal. f_equal. lia.
@@ -392,7 +393,7 @@ Proof.
     (* MissingBuffer: recovery *)
     destruct Hstep as (C1 & F1 & Hf1 & HI1 & Hc1'). cbn [hs_msgs hs_stop hs_st hs_buf] in *.
     rewrite <- Hl1.
-    destruct (recv_recover_spec v F1 q1 st1 Hq1 ltac:(rewrite Hc1; exact Hc1')) as [->|(q3 & pre & gap & Hq3 & Hc3 & ->)];
+    destruct (recv_recover_spec v F1 q1 st1 Hq1 ltac:(rewrite Hc1; exact Hc1')) as [[_ ->]|(q3 & pre & gap & Hq3 & Hc3 & _ & ->)];
       [exact Hfin|].
     assert (Hh3 : hinv v (rh_in s) (mkhs (st_rebuf st1 (length pre) (length gap)) (contents q3) (rh_msgs s) false)).
     { pose proof (hstep_inv v (rh_in s) (mkhs st1 flat1 (rh_msgs s) false) (HRebuf pre gap)
